@@ -87,37 +87,49 @@ def acceptNmi (a : Arch) : Arch :=
 /-- Maskable acceptance bookkeeping: disable further maskable interrupts; mode 1 substitutes RST 38;
     mode 2 pushes PC, loads PC from the table entry at I*256+byte and clears the latch. -/
 def acceptInt (a : Arch) (b : UInt8) : Arch :=
-  let a := { a with iff1 := false, iff2 := false }
-  if a.im == 1 then { a with int := some 0xFF }
+  if a.im == 1 then { a with iff1 := false, iff2 := false, int := some 0xFF }
   else if a.im == 2 then
-    let a1 := a.pushWord a.reg.pc
-    { a1.setPC (a1.bus.readWord (mkWord a.reg.i b)) with int := none }
-  else a
+    { (({ a with iff1 := false, iff2 := false } : Arch).pushWord a.reg.pc).setPC
+        ((({ a with iff1 := false, iff2 := false } : Arch).pushWord a.reg.pc).bus.readWord (mkWord a.reg.i b))
+      with int := none }
+  else { a with iff1 := false, iff2 := false }
+
+/-- the encoded length handed to `exec`: an RST that answers an accepted interrupt returns to the
+    interrupted PC itself. -/
+def effLen (d : Decoded) (int : Option UInt8) : UInt16 :=
+  match d.instr, int with
+  | .rst _, some _ => 0
+  | _, _ => d.len
+
+/-- the opcode byte the dispatcher starts from: the latch (accepted mode-0/1 request) or memory. -/
+def firstByte (a : Arch) : UInt8 :=
+  match a.int with | none => a.bus.readByte a.reg.pc | some o => o
 
 /-- Fetch, decode and execute at PC; `a.int` (if still set) supplies the opcode. -/
 def dispatch (a : Arch) : Arch × UInt32 × StepInfo :=
-  let pc := a.reg.pc
-  let first := match a.int with | none => a.bus.readByte pc | some o => o
-  let d := decode a.bus pc first
-  let len : UInt16 :=
-    match d.instr, a.int with
-    | .rst _, some _ => 0          -- servicing: the return address is the interrupted PC
-    | _, _ => d.len
-  let cyc := instrCycles d a
-  let a' := exec d.instr len a
-  ({ a' with int := none }, cyc, ⟨d.page, d.instr = .unknown, opcodeText a.bus pc d, d, taken d.instr a⟩)
+  ({ exec (decode a.bus a.reg.pc (firstByte a)).instr (effLen (decode a.bus a.reg.pc (firstByte a)) a.int) a with int := none },
+   instrCycles (decode a.bus a.reg.pc (firstByte a)) a,
+   ⟨(decode a.bus a.reg.pc (firstByte a)).page, (decode a.bus a.reg.pc (firstByte a)).instr = .unknown,
+    opcodeText a.bus a.reg.pc (decode a.bus a.reg.pc (firstByte a)), decode a.bus a.reg.pc (firstByte a),
+    taken (decode a.bus a.reg.pc (firstByte a)).instr a⟩)
+
+/-- an accepted interrupt ends the halt; execution resumes after the HALT -/
+def wake (a : Arch) : Arch := if a.halt then { a.setPC (a.reg.pc + 1) with halt := false } else a
+
+def takeNmi (a : Arch) : Arch := if a.nmi then acceptNmi a else a
+
+/-- a masked request is not seen by the instruction -/
+def takeInt (a : Arch) : Arch :=
+  match a.iff1, a.int with
+  | true, some b => acceptInt a b
+  | _, _ => { a with int := none }
+
+/-- everything `execute` does before it selects the opcode -/
+def preDispatch (a : Arch) : Arch := takeInt (takeNmi (wake a))
 
 def stepArch (a : Arch) : Arch × UInt32 × Option StepInfo :=
-  if a.halt && !a.wakes then (a, 4, none) else
-  -- an accepted interrupt ends the halt; execution resumes after the HALT
-  let a := if a.halt then { a.setPC (a.reg.pc + 1) with halt := false } else a
-  let a := if a.nmi then acceptNmi a else a
-  let a :=
-    match a.iff1, a.int with
-    | true, some b => acceptInt a b
-    | _, _ => { a with int := none }      -- a masked request is not seen by the instruction
-  let (a', cyc, info) := dispatch a
-  (a', cyc, some info)
+  if a.halt && !a.wakes then (a, 4, none)
+  else ((dispatch (preDispatch a)).1, (dispatch (preDispatch a)).2.1, some (dispatch (preDispatch a)).2.2)
 
 def updateDebug (d : Debug) : Option StepInfo → Debug
   | none => d
@@ -128,19 +140,17 @@ def updateDebug (d : Debug) : Option StepInfo → Debug
 
 /-- `CPU::execute` -/
 def step (c : Cpu) : Cpu × UInt32 :=
-  let (a', cyc, info) := stepArch c.arch
-  ({ c with arch := a', debug := updateDebug c.debug info }, cyc)
+  ({ c with arch := (stepArch c.arch).1, debug := updateDebug c.debug (stepArch c.arch).2.2 }, (stepArch c.arch).2.1)
 
 def Cpu.intRequest (c : Cpu) (b : UInt8) : Cpu := { c with arch := { c.arch with int := some b } }
 def Cpu.nmiRequest (c : Cpu) : Cpu := { c with arch := { c.arch with nmi := true } }
 
 /-- `execute_timed`; `elapsed` is `slice_start_time.elapsed()` in ms (`none`: the clock went backwards). -/
+def sliceFires (c : Cpu) : Bool := c.slice.cur > c.slice.max
+
 def executeTimed (c : Cpu) (elapsed : Option UInt32) : Cpu × Option UInt32 :=
-  let fire := c.slice.cur > c.slice.max
-  let sleep := if fire then elapsed.map (fun d => if d ≤ c.slice.duration then c.slice.duration - d else 0) else none
-  let cur0 := if fire then 0 else c.slice.cur
-  let (c', cyc) := step c
-  ({ c' with slice := { c.slice with cur := cur0 + cyc } }, sleep)
+  ({ (step c).1 with slice := { c.slice with cur := (if sliceFires c then 0 else c.slice.cur) + (step c).2 } },
+   if sliceFires c then elapsed.map (fun d => if d ≤ c.slice.duration then c.slice.duration - d else 0) else none)
 
 def Cpu.setSliceDuration (c : Cpu) (d : UInt32) : Cpu := { c with slice := { c.slice with duration := d } }
 
